@@ -52,13 +52,16 @@ RECURSIVE Table(_, _, _)
 Table(files, i, tab) == IF i > Len(files) THEN tab ELSE Table(files, i + 1, Insert(tab, FileEntries(files[i]), 1))
 EmptyTable == [k \in {} |-> "none"]
 
-\* intended table (C15): a module declaration never hides a definition with the same scoped name, whichever was parsed
-\* first - a module only takes a key that is free, a definition always takes its key
+\* intended table (C15): what a scoped name designates never depends on which file was parsed first.  Keys are shared
+\* by module declarations, members (a field / operation / enumerator / parameter X of a container N has the key ..::N::X)
+\* and definitions (a definition X of a module ..::N has the same key).  A definition always takes its key, a member
+\* takes it unless a definition holds it, a module only takes a key that is free.
+Rank(kind) == CASE kind = "module" -> 0 [] kind = "member" -> 1 [] OTHER -> 2
 RECURSIVE InsertIntended(_, _, _)
 InsertIntended(tab, entries, i) ==
   IF i > Len(entries) THEN tab
   ELSE LET e == entries[i]
-           keep == e.kind = "module" /\ e.key \in DOMAIN tab IN
+           keep == e.key \in DOMAIN tab /\ (Rank(tab[e.key]) > Rank(e.kind) \/ (e.kind = "module" /\ tab[e.key] = "module")) IN
        InsertIntended(IF keep THEN tab ELSE [k \in (DOMAIN tab) \cup {e.key} |-> IF k = e.key THEN e.kind ELSE tab[k]], entries, i + 1)
 RECURSIVE TableIntended(_, _, _)
 TableIntended(files, i, tab) == IF i > Len(files) THEN tab ELSE TableIntended(files, i + 1, InsertIntended(tab, FileEntries(files[i]), 1))
